@@ -122,6 +122,52 @@ PROPS = {
                       "outside the statement (DESIGN 7.1).",
         "assumptions": ["validators are functions of the text"],
     },
+    "C15": {
+        "module": "Rl.Props.C15",
+        "targets": [{"name": "comp", "gen": "comp", "header_tokens": 5},
+                    {"name": "clcp", "gen": "clcp", "header_tokens": 2},
+                    {"name": "cfs", "gen": "cfs", "header_tokens": 4}],
+        "shards": {"quick": 8, "thorough": 16},
+        "trivial_impl_regex": r"0/-|n|\d+/~/~/~",
+        "rule": "comp: exhaustive over all strings of length <=5 over {space, \", ', \\, $, (, a, e-acute}: escape+unescape in the three "
+                "quoting contexts; extract_word with the cursor at the end of every string of length <=6 (thorough <=7) over that "
+                "alphabet (= every split point of every longer one) with escape char, <=4 without, every byte position (boundary "
+                "or not, past the end) of the strings <=3, plus 20 000 (thorough 200 000) random lines <=14 over a richer alphabet. "
+                "clcp: every candidate list of <=2 (thorough <=3) strings out of the 31 strings <=2 over {a, e-acute, e-grave, U+6F22, U+6F23} "
+                "(shared first bytes), plus 30 000 (thorough 200 000) random stem+tail lists. "
+                "cfs: FilenameCompleter::complete_path in real temporary directories (current directory = the temp dir): "
+                "(1) a fixed 16-entry tree x every line <=5 (thorough <=6) over the alphabet with the cursor at the end, x directory parts "
+                "typed bare and in both quotes; (2) every name of length <=3 (thorough <=4) over the alphabet created as file or "
+                "directory (batches of 6 + a sub-directory) x every split point x {bare, double, single quote} x 13 typed "
+                "prefixes (typical ones, escaped/unescaped blanks after backslash runs, closed quotes); (3) 400 (thorough 4000) random "
+                "trees of names <=6 over a richer alphabet (tab, backquote, =, ;, |, &, CJK, emoji, combining mark) x 25 typed lines. "
+                "Each candidate is re-completed from the inserted text. distinct = hash of the request; trivial = empty word / "
+                "no prefix / no candidate.",
+        "exhaustive": {"quick": True, "thorough": True},
+        "trusted_base": [
+            "unix configuration only (cfg(unix) break set, escape char, MAIN_SEPARATOR '/'); windows / wasm branches not modelled",
+            "default_break_chars / double_quotes_special_chars are private: the pure-function targets run on a copy in the harness, "
+            "complete_path on the real ones; the model uses Rl.Completion.defaultBreak / dqSpecial and is compared with both",
+            "the directory listing is OS input: the harness creates exactly the entries named in the request and passes the same "
+            "list to the model and the oracle; read_dir / metadata / current_dir themselves are not modelled",
+            "feature with-dirs (~ expansion), absolute paths, '.'/'..' components, non-UTF-8 names, unreadable entries: not claimed",
+            "Pair ordering by display modelled as code-point order (= byte order of UTF-8)"],
+        "level_text": "Unbounded Lean theorems about the model of src/completion.rs: unescape(escape s) = s for every text and break set "
+                      "containing the escape char; extract_word and find_unclosed_quote recover exactly the inserted replacement after "
+                      "any syntactically unquoted / closed prefix; complete_path's parse step reads a replacement back to the same path and the model of complete_path offers the entry "
+                      "again with the same replacement (three contexts); "
+                      "longest_common_prefix (byte loop + back-off) returns a common prefix on a character boundary and the longest one. "
+                      "The model is tied to the code by exhaustive + random differential runs of the public functions and of "
+                      "complete_path on real directories, with the declarative reader (Rl.Spec.Completion.lex) as oracle.",
+        "level_note": "Trusted: Lean kernel; harness/diff; the copy of the two private character sets in the harness; OS directory "
+                      "listing passed as data. Reading decisions: a bare backslash before a character that needs no escape, and a "
+                      "line cut right after a bare backslash, are outside the claim (oracle answers '-').",
+        "unproved": ["C15_word_agrees_statement: extract_word agrees with the declarative reader on every plain bare line - false on "
+                     "the current tree (C15_word_agrees_counterexample, known finding D26); proved instead: C15_extract_inverts under "
+                     "the decidable prefix hypothesis C15_unquoted"],
+        "assumptions": ["typed text uses backslash escapes only where the completer itself would write them (plain lines)",
+                        "directory candidates are re-completed from the inserted text without its trailing separator"],
+    },
 }
 
 # properties not (yet) claimed, with the reason (kept current; see DESIGN.md)
